@@ -27,6 +27,7 @@ var Props = map[string]PropFn{
 	"C11": propC11,
 	"C10": propC10,
 	"C19": propC19,
+	"C15": propC15,
 	"C08": propC08,
 	"C09": propC09,
 	"C06": propC06,
@@ -687,4 +688,22 @@ func propC02(c *Ctx) int {
 		"outside: JSON emission (encoding/json), more than two HTTP interactions + one JSON-RPC method, combinations of more feature choices than the symbolic ones of a job, MACRO/PASTE and INCLUDE renderings (covered relationally by C10/C09), layout variants (C08)",
 		contractLoc, contractRune,
 	}, map[string]interface{}{"model_roundtrips": reached})
+}
+
+
+func propC15(c *Ctx) int {
+	n := int64(6)
+	if c.Tier == "thorough" {
+		n = 7
+	}
+	c.RunJob(Job{Name: fmt.Sprintf("permutation of %d top-level blocks", n), Pkg: "core", Fn: "HPermute", Params: map[string]int64{"n": n},
+		Stubs: []string{"rune"}, PanicIsViolation: true, MaxPaths: 100000, Timeout: 2 * time.Hour, MaxSteps: 20000000, MaxDepth: 1000, MustReach: []string{"permuted"}})
+	c.RunJob(Job{Name: fmt.Sprintf("permutation of %d blocks with symbolic references", n-1), Pkg: "core", Fn: "HPermute", Params: map[string]int64{"n": n - 1, "edges": 1},
+		Stubs: []string{"rune"}, PanicIsViolation: true, MaxPaths: 200000, Timeout: 2 * time.Hour, MaxSteps: 20000000, MaxDepth: 1000, MustReach: []string{"permuted"}})
+	return c.Finish("model_checking", []string{
+		fmt.Sprintf("one accepted document of %d independent top-level blocks after JSIGHT (TAG with description; TYPE @a referring to @b and to an ENUM; TYPE @b referring back to @a and carrying a rule; ENUM with notes; URL block with two methods, Tags and type references; stand-alone method with a path parameter, request headers + body and an array-of-type response; quick: + nothing, thorough: + SERVER) built as written and in a symbolic permutation (Lehmer code: all %d! orders); second job: one block fewer, and which block refers to which is symbolic as well (@a -> @b, @b -> @a — both: a cycle —, @a -> ENUM, the stand-alone method -> @a / @b: 16 reference structures x all orders)", n, n),
+		"oracle: both accepted; the deep digests (every entity with names, annotations, descriptions, schema text and the emitter-level content tree / rules / used types of every schema and enum) are equal as multisets of entities; types and interactions appear in the text order of the permuted document",
+		"outside: INFO among the permuted blocks (quick tier), MACRO/PASTE/INCLUDE blocks (their order sensitivity is C09/C10's subject), more than one document, the JSON bytes",
+		contractRune,
+	}, map[string]interface{}{})
 }
